@@ -142,7 +142,7 @@ def driver_strategy(tier):
         return {"spec": spec,
                 "kind": draw(st.sampled_from(["text", "text", "netcdf"])),
                 "token": draw(st.sampled_from(["-999", "nan", "NA", "missing"])),
-                "ncmissing": draw(st.sampled_from(["fill", "-999", "nan", "big"])),
+                "ncmissing": draw(st.sampled_from(["fill", "-999", "nan", "big", "fill-9999", "missing_value"])),
                 "axis": draw(st.sampled_from(gen.AXES_FOR_SCORES)),
                 "clim_flag": draw(st.sampled_from(["-c", "-C"]))}
     return s()
